@@ -33,6 +33,27 @@ def check(run):
         if len(run.samples) < 2:
             run.sample({"fixtures": [(f["name"], f["scope"], f["params"]) for f in c["project"]["fixtures"]],
                         "options": c["options"], "fixture_setups": setups})
+    # directed family: a fixture needed only by a DISABLED test, next to an enabled test of the same suite: it is not evaluated
+    # (suite, session and pre_run scope; with --force-disabled it is needed and evaluated)
+    nohooks = {"setup_suite": None, "teardown_suite": None, "setup_test": None, "teardown_test": None}
+    dcases = []
+    for k, (scope, force, nthreads) in enumerate([("suite", False, 1), ("session", False, 2), ("pre_run", False, 1), ("suite", True, 2),
+                                                  ("session", True, 1)]):
+        fx = [{"name": "f5", "scope": scope, "params": [], "per_thread": False, "generator": scope != "pre_run",
+               "setup": [["mark", 1]], "teardown": [["mark", 2]] if scope != "pre_run" else []},
+              {"name": "f9", "scope": "suite", "params": [], "per_thread": False, "generator": True, "setup": [["mark", 3]], "teardown": [["mark", 4]]}]
+        tests = [{"name": "t7", "disabled": False, "rank": 0, "deps": [], "args": ["f9"], "params": {}, "body": [["log", 1, 1], ["use", "f9"]]},
+                 {"name": "t8", "disabled": True, "rank": 1, "deps": [], "args": ["f5"], "params": {}, "body": [["log", 1, 2], ["use", "f5"]]}]
+        dcases.append({"id": "fd%d" % k, "project": {"fixtures": fx, "suites": [
+            {"name": "s6", "disabled": False, "rank": 0, "hooks": nohooks, "injected": [], "tests": tests, "subs": []}]},
+            "sched": projgen.gen_sched(run.rng), "options": {"nb_threads": nthreads, "stop_on_failure": False, "force_disabled": force}})
+    dres = engine.cosim(run, dcases)
+    for c in dcases:
+        r = dres.get(c["id"]) or {"outcome": ["hang", "no result"]}
+        run.evaluations += 1
+        run.count("fixture_of_a_disabled_test_only_runs")
+        for sig, text in runoracle.c03_oracle(c, r):
+            run.violation(sig, text, {"case": c, "outcome": r.get("outcome")})
     propcommon.search_failing_schedule(run, cases, runoracle.c03_oracle, results)
     run.coverage["rule"] = ("seeded random projects biased towards fixtures (4 scopes, generator/plain, parameters, injected, "
                             "setup_suite arguments) and hooks with failures in setups, bodies and teardowns; non-trivial = at "
